@@ -899,7 +899,7 @@ class Interp:
         n = 0
         while self.truth(self.eval(st.test, env, module), st.test):
             n += 1
-            if n > 10000:
+            if n > 200:
                 raise CheckerError(f'while loop at line {st.lineno} does not terminate concretely (needs an invariant)')
             try:
                 self.exec_block(st.body, env, module, qual)
